@@ -243,7 +243,7 @@ async def _site_cases(ctx, ncase):
                     except GraphError:
                         w.db.execute("ROLLBACK TO c18t")
                 for q in labels[:6]:
-                    exp_t = {t + "/" for t in trees if (q + "/").startswith(t + "/")}
+                    exp_t = {t + "/" for t in trees if q.startswith(t + "/")}
                     try:
                         st = w.wf._find_owning_static_tree(q)
                         got_t = {st.label} if st is not None else set()
